@@ -642,6 +642,14 @@ class Interp:
         if c.endswith("from_residual"):
             return En(1, [TOP], "Err")
         end_ = c.rsplit("::", 1)[-1]
+        # the larger / smaller of two values of a field-less enum of the crate with a derived order (the order of its variants)
+        if end_ in ("max", "min") and ("cmp::max" in c or "cmp::min" in c or "cmp::Ord" in c) and len(args) == 2 and \
+                all(isinstance(x, En) and not x.fields and x.adt for x in args) and args[0].adt == args[1].adt:
+            ords_ = [g_ for g_ in self.fb.all("lib") if g_.trait and "cmp::Ord" in g_.trait and g_.self_ty and mir.norm(g_.self_ty).split("<")[0] == args[0].adt]
+            if ords_ and all(g_.derived for g_ in ords_):
+                if end_ == "max":
+                    return args[1] if args[1].variant >= args[0].variant else args[0]
+                return args[0] if args[0].variant <= args[1].variant else args[1]
         # NonZero::new(n): Some(n) unless n is zero; the wrapper is the value it wraps
         if "num::NonZero" in c and end_ == "new" and len(args) == 1 and isinstance(args[0], IV):
             v = args[0]
